@@ -65,26 +65,26 @@ def assigns_local(drv, blocks, local):
 
 
 def repeat_arm_rule(ctx, drv):
-    cfg = M.CFG(drv)
-    pb, pt = find_parse_call(drv)
-    if pb is None:
-        return None, "no call to Interpreter::parse"
-    idx = idx_local(drv)
-    sb, arms, otherwise = state_switch(ctx, drv)
-    if sb is None or idx is None:
-        return None, "State dispatch or index variable not identified"
-    tgt = arms.get("REPEAT", otherwise)
-    # blocks on paths from the REPEAT arm back to the parse call (without passing the switch again)
-    reach = cfg.reachable_from(tgt, avoid={sb})
-    if pb not in reach:
+    """REPEAT re-issues the same instruction: the loop is re-entered with the index variable unchanged"""
+    from symterm import show
+    L = LoopModel(ctx, drv)
+    if not L.ok:
+        return None, L.why or "loop structure not recognised"
+    arm = L.arms.get("REPEAT")
+    if arm is None:
+        return None, "no REPEAT outcome"
+    if arm["next"] is None:
         return False, "from the REPEAT arm the interpreter call is never reached again (no re-issue)"
-    # restrict to blocks that can reach the parse call
-    region = [b for b in reach if pb in cfg.reachable_from(b, avoid={sb})]
-    region_before = [b for b in region if b != pb]
-    ass = assigns_local(drv, region_before, idx)
-    if ass:
-        return False, f"the index variable is assigned on the way from the REPEAT arm back to the interpreter call (bb{ass[0][0]})"
-    return True, f"REPEAT arm (bb{tgt}) returns to Interpreter::parse without assigning the index variable _{idx}"
+    if arm["next"] == L.cur:
+        return True, f"REPEAT returns to Interpreter::parse with the index variable _{L.idx} unchanged"
+    if has_unknown(arm["next"]):
+        return None, f"index after REPEAT not in closed form: {show(arm['next'])}"
+    return False, f"the index variable is changed on the way from the REPEAT arm back to the interpreter call (becomes {show(arm['next'])})"
+
+
+def has_unknown(t):
+    from symterm import subterms
+    return any(x[0] in ("phi", "unk") for x in subterms(t))
 
 
 def def_of(fn, bi, local, depth=10):
@@ -182,3 +182,108 @@ def deep_trace(fn, bi, operand, through=("deref", "clone", "borrow", "as_ref", "
             continue
         break
     return chain
+
+
+# ----------------------------------------------------------------------------------------------------------------
+# term-based model of the execution loop (symterm.SymFlow): independent of how the source spells the bookkeeping
+
+class LoopModel:
+    """One trip around the instruction loop of CMDDriver::run, specialised per State variant.
+
+    cur      term of the `current` argument of Interpreter::parse, in terms of the values at the loop head
+    line     term of the line argument
+    result   term of the call's result
+    arms     {variant name: dict(next=term of the index variable at the next loop head or None if the loop is
+             never re-entered, returns=[blocks], exits=[blocks calling process::exit], blocks=set)}
+    init     term of the index variable when the loop is first entered (in terms of the function entry)"""
+
+    def __init__(self, ctx, drv):
+        from symterm import SymFlow, strip
+        from cfgtools import natural_loops
+        self.ok = False
+        self.why = ""
+        self.drv = drv
+        P = ctx.program
+        F = self.F = SymFlow(drv)
+        pb, pt = find_parse_call(drv)
+        if pb is None:
+            self.why = "no call to Interpreter::parse"
+            return
+        self.pb, self.pt = pb, pt
+        loops = [(h, body) for h, body in natural_loops(F.cfg).items() if pb in body]
+        if not loops:
+            self.why = "Interpreter::parse is not called in a loop"
+            return
+        self.head, self.body = min(loops, key=lambda x: len(x[1]))
+        h = self.head
+        entry, arr, edges = F.run(h, stop={h})
+        if pb not in entry:
+            self.why = "interpreter call not reached from the loop head"
+            return
+        args = F.call_args(entry[pb], pb)
+        self.args = args
+        self.cur = args[1] if len(args) > 1 else None
+        self.line = args[-1]
+        self.result = ("call", pt[1].get("def") or "indirect", tuple(args), pb)
+        C = self.result
+        if self.cur is None or self.cur[0] != "init":
+            self.why = "the `current` argument is not a loop variable"
+            return
+        self.idx = self.cur[1]
+        sadt = P.adts.get("util::interpreter_util::State")
+        self.state = ("proj", ("proj", C, ("down", 0)), ("f", 0))
+        self.arms = {}
+        for vi, v in enumerate(sadt["variants"]):
+            def decide(t, b, vi=vi):
+                if t[0] == "disc":
+                    x = strip(t[1])
+                    if x == self.state:
+                        return vi
+                    if x == C:
+                        return 0
+                return None
+            e2, a2, ed2 = F.run(h, stop={h}, decide=decide)
+            after = set()
+            # blocks executed after the interpreter returned (for "can this outcome stop the program")
+            st = [M.term(drv["blocks"][pb])[4]]
+            while st:
+                b = st.pop()
+                if b in after or b not in e2 or b == h:
+                    continue
+                after.add(b)
+                st.extend(s for (x, s) in ed2 if x == b)
+            rets = [b for b in after if M.term(drv["blocks"][b])[0] == "return"]
+            exits = [b for b in after if M.term(drv["blocks"][b])[0] == "call" and (M.term(drv["blocks"][b])[1].get("def") or "").endswith("process::exit")]
+            nxt = a2[h].get(self.idx, ("init", self.idx)) if h in a2 else None
+            self.arms[v["name"]] = {"next": nxt, "returns": rets, "exits": exits, "blocks": after, "variant": vi, "entry": e2}
+        # first entry of the loop
+        e0, a0, _ = F.run(0, stop={h})
+        self.init = a0[h].get(self.idx, ("init", self.idx)) if h in a0 else None
+        self.entry0 = e0
+        self.ok = True
+
+    def payload(self, variant_index, field=0):
+        return ("proj", ("proj", self.state, ("down", variant_index)), ("f", field))
+
+
+def local_closure(P, fn, which="bin", limit=40):
+    """fn plus the local functions and closures it (transitively) calls or constructs"""
+    seen, out, st = set(), [], [fn]
+    while st and len(out) < limit:
+        f = st.pop()
+        if f["name"] in seen:
+            continue
+        seen.add(f["name"])
+        out.append(f)
+        for bb in f["blocks"]:
+            for s in bb["stmts"]:
+                if s[0] == "assign" and s[2][0] == "agg" and s[2][1].get("k") == "closure":
+                    g = P.by_name.get((which, s[2][1].get("name"))) or P.by_name.get(("lib", s[2][1].get("name")))
+                    if g:
+                        st.append(g)
+            t = M.term(bb)
+            if t[0] == "call":
+                g = P.fns.get(t[1].get("id"))
+                if g is not None and t[1].get("local"):
+                    st.append(g)
+    return out
